@@ -12,6 +12,7 @@ type gridDef struct {
 	outside     string
 	assumptions []string
 	noReach     bool
+	validateN   int // translator-validation sample size override (0 = default)
 }
 
 var grids = map[string]*gridDef{}
